@@ -19,7 +19,7 @@ RULE = ('case = (1..3 memories with random images, incl. one mapped near 2^32 an
         'per history. distinct_nontrivial = distinct (history hash, fault script, k, port-4 wire hash).')
 ASSUMPTIONS = ['device memory protocol as in the firmware: read reply <=24 data bytes, write 5-byte header',
                'duplicates are drained before a conflicting request is issued (a stale reply may legitimately carry old data)']
-REQUIRED = ['mon.deck_reads_failing_without_a_failure_callback', 'mon.writes_with_a_progress_callback', 'mon.empty_writes_with_a_progress_callback', 'mon.tester_reads', 'mon.tester_writes', 'mon.tester_writes_crossing_a_256_byte_boundary_with_a_remainder', 'mon.tester_reads_over_a_corrupted_byte',
+REQUIRED = ['mon.queued_write_pairs_with_the_second_write_below_the_first', 'mon.deck_reads_failing_without_a_failure_callback', 'mon.writes_with_a_progress_callback', 'mon.empty_writes_with_a_progress_callback', 'mon.tester_reads', 'mon.tester_writes', 'mon.tester_writes_crossing_a_256_byte_boundary_with_a_remainder', 'mon.tester_reads_over_a_corrupted_byte',
             'mon.reads_completed', 'mon.writes_completed', 'mon.failed_notifications', 'mon.images_compared',
             'mon.chunk_requests', 'mon.probe_after_history', 'mon.link_drop_runs', 'mon.error_status_runs',
             'mon.requests_issued_while_no_link_is_open', 'mon.deck_memory_requests_issued_from_a_completion_callback',
@@ -41,6 +41,7 @@ def cases(tier, seed):
                     'kmax': 6 if tier == 'quick' else 14})
     out += [{'part': 'deck', 'seed': seed * 37 + i, 'n': 40} for i in range(2 if tier == 'quick' else 10)]
     out += [{'part': 'tester', 'seed': seed * 41 + i, 'n': 8} for i in range(16 if tier == 'quick' else 100)]
+    out += [{'part': 'dupq', 'seed': seed * 43 + i, 'n': 10} for i in range(16 if tier == 'quick' else 100)]
     return out
 
 
@@ -664,8 +665,130 @@ def run_tester(desc, ctx):
     ctx.sample({'tester_ops': [(k, st, ln) for (k, st, ln) in ops][:6], 'corrupted_addresses_in_read_memory': corrupt})
 
 
+def run_dupq(desc, ctx):
+    """Two writes queued back to back on one memory while every write acknowledgement arrives twice (the second copy up to
+    a few milliseconds later, i.e. possibly after the next write has been started).  The two writes never share a chunk
+    address (an acknowledgement only carries memory id and address, a copy for an address that is in flight again cannot
+    be told from the real one by any implementation).  Judged: at the moment a write is reported done the device holds
+    its data; a write the device refuses is reported failed (and never done); one completion per write; a chunk goes out
+    only after the chunk before it was acknowledged."""
+    from vf import detsched as ds, simlink
+    from cflib.crazyflie import Crazyflie
+    from cflib.crazyflie.mem import MemoryElement
+    rnd = random.Random(desc['seed'])
+    size = 0x1000
+    mems = [{'type': 0x15, 'size': size, 'len': size, 'origin': 0, 'data': (b'\xEE' * size).hex()}]
+    prof = gen.profile(desc['seed'], 1, 1, proto=10, mems=mems)
+    dev = simcf.SimCF(prof)
+    spec = simlink.LinkSpec(dev, latency=0.001)
+    uri = 'sim://c06q'
+    simlink.SIMS[uri] = spec
+    drnd = random.Random(desc['seed'] ^ 0xD1)
+
+    def pol(sp, n, h, d):
+        if (h >> 4) & 0xF == 4 and h & 3 == 2:
+            return [(0.0, h, d)] + [(drnd.choice((0.0, 0.0005, 0.0015, 0.003)), h, d) for _ in range(drnd.choice((1, 1, 2)))]
+        return [(0.0, h, d)]
+    rounds = []
+    for _ in range(desc['n']):
+        def chunks(a, n):
+            out = []
+            while n > 0:
+                out.append(a)
+                a += min(25, n)
+                n -= min(25, n)
+            return out
+        for _try in range(50):
+            l1, l2 = rnd.choice((1, 10, 25, 26, rnd.randint(1, 80))), rnd.choice((1, 10, 25, 26, rnd.randint(1, 80)))
+            a1, a2 = rnd.randrange(0, size - 100), rnd.randrange(0, size - 100)
+            if rnd.random() < 0.6 and a2 > a1:
+                a1, a2 = a2, a1       # the second write lies below the first
+            if not set(chunks(a1, l1)) & set(chunks(a2, l2)) and (a1 + l1 <= a2 or a2 + l2 <= a1):
+                break
+        refuse2 = rnd.random() < 0.35
+        rounds.append((a1, bytes(rnd.getrandbits(8) for _ in range(l1)), a2, bytes(rnd.getrandbits(8) for _ in range(l2)), refuse2))
+    ob = {'problems': [], 'rounds': []}
+
+    def fn(s):
+        dev.now = lambda: s.now
+        cf = Crazyflie()
+        done = ds.Event()
+        cf.connected.add_callback(lambda u: done.set())
+        cf.connection_failed.add_callback(lambda *a: done.set())
+        cf.open_link(uri)
+        if not done.wait(300.0) or len(cf.mem.get_mems(MemoryElement.TYPE_MEMORY_TESTER)) != 1:
+            ob['problems'].append('connect failed or memory not found')
+            return
+        s.sleep(0.3)
+        mem = cf.mem.get_mems(MemoryElement.TYPE_MEMORY_TESTER)[0]
+        comps = []
+        cf.mem.mem_write_cb.add_callback(lambda m, a: comps.append(('ok', a, bytes(dev.mems[0]['data']), spec.seq)))
+        cf.mem.mem_write_failed_cb.add_callback(lambda m, a: comps.append(('fail', a, None, spec.seq)))
+        spec.reply_policy = pol
+        for (a1, d1, a2, d2, refuse2) in rounds:
+            del comps[:]
+            refused = {'n': 0}
+            if refuse2:
+                first2 = a2
+                dev.hooks['mem_status'] = lambda kind, mid, addr, k: ((refused.__setitem__('n', refused['n'] + 1) or simcf.EIO)
+                                                                     if (kind == 'write' and addr == first2) else None)
+            else:
+                dev.hooks.pop('mem_status', None)
+            t0, e0 = len(spec.tx), len(spec.rx)
+            cf.mem.write(mem, a1, d1)
+            cf.mem.write(mem, a2, d2)
+            g = 0
+            while len(comps) < 2 and g < 4000:
+                s.sleep(0.001)
+                g += 1
+            s.sleep(0.02)         # every copy has arrived
+            ob['rounds'].append({'comps': [(c[0], c[1], c[3]) for c in comps],
+                                 'held': [c[2][c[1]:c[1] + (len(d1) if c[1] == a1 else len(d2))] == (d1 if c[1] == a1 else d2) for c in comps if c[0] == 'ok'],
+                                 'tx': [(t[5], t[3]) for t in spec.tx[t0:] if (t[2] >> 4) & 0xF == 4 and t[2] & 3 == 2],
+                                 'rx': [(r[4], r[3]) for r in spec.rx[e0:] if (r[2] >> 4) & 0xF == 4 and r[2] & 3 == 2],
+                                 'refusals': refused['n'],
+                                 'left': {i: len(v) for i, v in cf.mem._write_requests.items() if v}})
+        dev.hooks.pop('mem_status', None)
+        spec.reply_policy = None
+        cf.close_link()
+    _, abort, sch = harness.sched_case(fn, seed=desc['seed'], policy=('rtb', 'random', 'pct')[desc['seed'] % 3],
+                                       line_p=harness.line_p_for(desc['seed'], 5, 0.03), horizon=5000.0)
+    rp = dict(desc)
+    if abort is not None or ob['problems'] or sch.deaths:
+        ctx.violate('mem:dupq:hang-or-setup-problem', {'abort': str(abort), 'problems': ob['problems'], 'deaths': [d[1] for d in sch.deaths][:2]}, replay=rp)
+        return
+    for (a1, d1, a2, d2, refuse2), r in zip(rounds, ob['rounds']):
+        ctx.evals()
+        ctx.nontrivial(('dupq', a1, len(d1), a2, len(d2), refuse2))
+        ctx.count('mon.queued_write_pairs_with_every_acknowledgement_arriving_twice')
+        if a2 < a1:
+            ctx.count('mon.queued_write_pairs_with_the_second_write_below_the_first')
+        info = {'first': (a1, len(d1)), 'second': (a2, len(d2)), 'device_refuses_the_second': refuse2, 'completions': [c[:2] for c in r['comps']]}
+        want = [('ok', a1), ('fail' if refuse2 else 'ok', a2)]
+        if [c[:2] for c in r['comps']] != want or r['left']:
+            ctx.violate('mem:dupq:completions-differ-from-what-the-device-did', dict(info, expected=want, left=r['left']), replay=rp)
+            continue
+        if not all(r['held']):
+            ctx.violate('mem:dupq:write-reported-done-before-the-device-held-the-data', info, replay=rp)
+            continue
+        # one chunk in flight: before chunk n+1 goes out, an acknowledgement for the address of chunk n was handed over
+        evs = sorted([(t[0], 'tx', struct.unpack('<BI', t[1][:5])[1]) for t in r['tx']] + [(x[0], 'rx', struct.unpack('<BI', x[1][:5])[1]) for x in r['rx']])
+        last_tx, acked = None, True
+        for (_, kind, addr) in evs:
+            if kind == 'tx':
+                if last_tx is not None and not acked:
+                    ctx.violate('mem:dupq:chunk-sent-before-the-chunk-before-it-was-acknowledged', dict(info, chunk=addr, unacknowledged=last_tx), replay=rp)
+                    break
+                last_tx, acked = addr, False
+            elif addr == last_tx:
+                acked = True
+    ctx.sample({'queued_write_pairs': [(a1, len(d1), a2, len(d2), rf) for (a1, d1, a2, d2, rf) in rounds][:4]})
+
+
 def run(desc, ctx):
     harness.init()
+    if desc.get('part') == 'dupq':
+        return run_dupq(desc, ctx)
     if desc.get('part') == 'tester':
         return run_tester(desc, ctx)
     if desc.get('part') == 'deck':
